@@ -25,6 +25,8 @@ def run_one(pid: str, tier: str, seed: int) -> int:
         if P.erased_records or P.value_classes:
             # normalisations applied to the parsed program before any rule ran (sa/records.py)
             ctx.extra["record_normalisation"] = {"namedtuples_erased_to_tuples": P.erased_records, "immutable_value_classes": P.value_classes}
+        if P.sugar_normalisation:
+            ctx.extra["sugar_normalisation"] = P.sugar_normalisation  # sa/sugar.py: private properties / tail-call decorators unfolded
         mod.run(ctx)
         rc = finish(ctx, getattr(mod, "LEVEL_TEXT", ""))
         if rc == 0 and tier == "thorough" and hasattr(mod, "thorough"):
